@@ -76,6 +76,24 @@ func elementsOf(v ssa.Value) ([]ssa.Value, bool) {
 
 // literalOf describes an instruction value (make Instruction <- T (load of complit)).
 func (b *Builder) literalOf(v ssa.Value, s state) *Literal {
+	// an instruction handed to a helper (`p.emit(bpf.JumpIf{...})`): the literal is the caller's argument
+	for i := 0; i < 6; i++ {
+		prm, ok := v.(*ssa.Parameter)
+		if !ok || s.fr == nil || s.fr.call == nil {
+			break
+		}
+		idx := -1
+		for k, q := range s.fr.fn.Params {
+			if q == prm {
+				idx = k
+			}
+		}
+		if idx < 0 || idx >= len(s.fr.call.Call.Args) {
+			break
+		}
+		v = s.fr.call.Call.Args[idx]
+		s = state{fr: s.fr.parent, blk: s.blk, idx: s.idx, env: s.env}
+	}
 	res := b.resolver(s.fr, s.env)
 	lit := &Literal{Fields: map[string]*origin.O{}, Fn: s.fr.fn, Pos: v.Pos()}
 	if mi, ok := v.(*ssa.MakeInterface); ok {
